@@ -27,7 +27,7 @@ import vlib
 PROPERTY = "C12"
 # Props/C12b.lean: corollaries that transport OTHER properties' theorems (C02, C04, Spectral) along a permutation;
 # a separate module so that a temporarily broken upstream file cannot break the main module
-LEAN_MODULES = ["TapkeeVerif.Props.C12", "TapkeeVerif.Props.C12b"]
+LEAN_MODULES = ["TapkeeVerif.Props.C12", "TapkeeVerif.Props.C12b", "TapkeeVerif.Props.C12Compose"]
 LEAN_EXES = ["model_c12"]
 REQUIRED_THEOREMS = [
     "TapkeeVerif.C12.sqDist_perm",
@@ -53,6 +53,9 @@ REQUIRED_THEOREMS = [
     "TapkeeVerif.C12b.pcaPre_c06_translation",
     "TapkeeVerif.C12b.spectralTopEig_perm",
     "TapkeeVerif.C12b.isTopEig_of_spectral",
+    # Props/C12Compose.lean: end-to-end equivariance of the composed Isomap model (Props/C04Compose.lean)
+    "TapkeeVerif.EquivCompose.isomap_permutation_equivariant",
+    "TapkeeVerif.EquivCompose.isomap_scale_equivariant",
 ]
 
 # the thread count is C15's subject: every run here is single-threaded so that a difference between two runs is
